@@ -5,12 +5,15 @@ CONSTANTS
   BeamPos = {0, 5}
   Phases <- MC_Phases12
   Ratios <- MC_Ratios
+  MinPulses = 1
   MaxPulses = 4
   MaxTurns = 12
+  Again = FALSE
   Pick = 0
   Bug = "none"
 INVARIANT TypeOK
 INVARIANT RejectedIffOverlap
+INVARIANT ValidationIgnoresListingOrder
 INVARIANT RefusedIffOutOfPhase
 INVARIANT OpenBeforeClose
 INVARIANT MaximalOpen
